@@ -229,9 +229,17 @@ impl Model {
             if let Expr::BVLiteral(l) = &ctx[r] {
                 let b = l.get(ctx);
                 let raw = Bv::raw_from_words(b.words());
-                if b.width() != v.w || raw != v.v {
+                if b.width() != v.w {
                     return Err(Failure::new(
-                        format!("context/non-canonical-literal/{}", crate::props::c06::wclass(v.w)),
+                        format!("context/literal-wrong-width/{}", crate::props::c06::wclass(v.w)),
+                        format!("{:?} returned a literal of width {} (raw words {:x?})", call, b.width(), b.words()),
+                    ));
+                }
+                if raw != v.v {
+                    let route = if let Call::Lit(_, route) = call { route % 7 } else { 0 };
+                    let what = if (&raw & crate::tape::ones(v.w)) == v.v { "bits-above-width" } else { "wrong-value" };
+                    return Err(Failure::new(
+                        format!("context/non-canonical-literal/{}/route{}/{}", what, route, crate::props::c06::wclass(v.w)),
                         format!("{:?} interned as a literal with raw words {:x?} (width {})", call, b.words(), b.width()),
                     ));
                 }
@@ -339,22 +347,29 @@ fn gen_call(t: &mut Tape, m: &Model) -> Call {
             let tpe = match t.below(5) {
                 0 => Type::BV(1),
                 1 => Type::BV(t.range(2, 8)),
-                2 => Type::BV(*t.pick(&[32u32, 64, 65, 128, 129])),
+                2 => Type::BV(*t.pick(&[32u32, 64, 65, 128, 129, 256, 257, 1024, 2049])),
                 3 => Type::Array(ArrayType { index_width: t.range(1, 3), data_width: t.range(1, 8) }),
                 _ => Type::BV(8),
             };
             Call::Symbol(name, tpe)
         }
         1 => {
-            let w = match t.below(6) {
+            let w = match t.below(9) {
                 0 => 1,
                 1 => t.range(2, 8),
                 2 => *t.pick(&[32u32, 63, 64]),
                 3 => *t.pick(&[65u32, 127, 128]),
                 4 => *t.pick(&[129u32, 192, 200]),
+                // widths around and beyond the next powers of two, and any width up to 2100
+                5 => *t.pick(&[255u32, 256, 257, 258, 260, 264, 300, 511, 512, 513, 600, 1023, 1024, 1025, 2047, 2048, 2049, 4096]),
+                6 => t.range(201, 2100),
+                7 => t.range(9, 200),
                 _ => 8,
             };
-            Call::Lit(Bv::new(w, t.bits(w)), t.byte())
+            // small values are as interesting as patterned ones: they are the ones special-cased by caches
+            let v = if t.chance(96) { BigUint::from(t.below(16)) } else { t.bits(w) };
+            let v = if w < 4 { v & ((BigUint::from(1u32) << w) - BigUint::from(1u32)) } else { v };
+            Call::Lit(Bv::new(w, v), t.byte())
         }
         2 => {
             let (e, _) = pick_bv(t, m);
